@@ -404,7 +404,13 @@ def pairwise_pass(ck, rule):
             lo, hi = (C(0), rargs[0]) if len(rargs) == 1 else (rargs[0], rargs[1]) if len(rargs) == 2 else (None, None)
             ck.judge(lo == C(0) and hi == T.p_sub(T.mk_call("len", [chain]), C(1)), rule, short(fn) + ":length", w,
                      "index pairs are generated for the whole chain", found=T.show(i0[1])[:120], required="range(len(chain) - 1)")
-            ck.judge(i1 == T.p_add(i0, C(1)), rule, short(fn) + ":neighbours", w, "a step resolves slot i against slot i + 1",
+            neighbours = i1 == T.p_add(i0, C(1))
+            if not neighbours and i1[0] == "elem" and i1[1][0] == "call" and i1[1][1] == "range" and not i1[1][3] and i1[2] == i0[2] \
+                    and len(i1[1][2]) == 2:
+                # zip(range(n - 1), range(1, n)): the k-th elements are k and 1 + k, and both ranges have n - 1 elements
+                lo1, hi1 = i1[1][2]
+                neighbours = lo == C(0) and lo1 == C(1) and T.p_sub(hi1, lo1) == T.p_sub(hi, lo)
+            ck.judge(neighbours, rule, short(fn) + ":neighbours", w, "a step resolves slot i against slot i + 1",
                      found=f"[{T.show(i0)[-40:]}] with [{T.show(i1)[-60:]}]", required="i and i + 1")
             judged_gen = True
         if not judged_gen:
